@@ -1,0 +1,23 @@
+//go:build verif
+
+package mocker
+
+// Contracts for the root package (checked by /verif/bin/govc; comment-only).
+
+// ---- C05: result sequences ----------------------------------------------------------------------
+
+//@ pure func matcher_inv(c *BaseMatcher) bool = c != nil && 0 <= c.curNum && c.curNum <= 0x40000000 && len(c.results) < 0x40000000 && (len(c.results) <= 1 ==> c.curNum == 0)
+//@ pure func seq_index(k int32, n int) int = ite(int(k) < n, int(k), n - 1)
+
+//@ func (c *BaseMatcher) Result
+//@   props C05
+//@   requires nonempty: len(c.results) >= 1
+//@   requires inv: matcher_inv(c)
+//@   assigns c.curNum
+//@   ensures element_of_sequence: exists i int :: 0 <= i && i < len(c.results) && result == c.results[i]
+//@   ensures kth_then_last: !concurrent ==> result == c.results[seq_index(old(c.curNum), len(c.results))]
+//@   ensures cursor_advances: !concurrent ==> c.curNum == ite(len(c.results) > 1 && int(old(c.curNum)) < len(c.results), old(c.curNum) + 1, old(c.curNum))
+//@   ensures never_backwards: c.curNum >= old(c.curNum)
+//@   ensures last_sticks: int(old(c.curNum)) >= len(c.results) - 1 ==> result == c.results[len(c.results) - 1]
+//@   ensures past_end_sticks: int(old(c.curNum)) >= len(c.results) - 1 && len(c.results) > 1 ==> int(c.curNum) >= len(c.results)
+//@   ensures inv_kept: matcher_inv(c)
